@@ -105,17 +105,12 @@ pub fn inputs_of_base(plan: &Plan, b: u64, corpus: &[(String, Vec<u8>)]) -> Vec<
         for op in 0..hostile::MODEL_OPS.len() {
             for r in 0..reps {
                 // deep nests: depth grows with the base index so that several depths are probed
-                let deep = match (b + r as u64) % 4 {
-                    0 => 3000,
-                    1 => 12_000,
-                    2 => 30_000,
-                    _ => {
-                        if thorough {
-                            65_000
-                        } else {
-                            22_000
-                        }
-                    }
+                // deep nests are generated for one base in eight; the depth cycles so that several depths are probed
+                let deep = match (b / 8 + r as u64) % 4 {
+                    0 => 30_000,
+                    1 => 65_000,
+                    2 => 12_000,
+                    _ => 3000,
                 };
                 if hostile::MODEL_OPS[op] == "nested_groups" && (b % 8 != 0 || r > 0) {
                     continue; // expensive input: one in eight bases
